@@ -143,10 +143,20 @@ func runLinkLoss(n int, outPath, replay string) {
 			cases = append(cases, genLinkLoss(r, i))
 		}
 	}
+	failing := 0
 	for _, c := range cases {
+		if failing >= 3 {
+			// every failing case costs seconds of waiting for frames that never arrive: three witnesses are enough
+			out.Stats["skipped-after-3-failing-cases"]++
+			continue
+		}
 		o := runC13Case(c)
 		idx := out.Add(coqC13(c, o), c)
-		for _, f := range monitorLinkLoss(c, o) {
+		fs := monitorLinkLoss(c, o)
+		if len(fs) > 0 {
+			failing++
+		}
+		for _, f := range fs {
 			out.Monitor = append(out.Monitor, util.MonitorFail{Case: idx, What: f, Tags: c.Tags})
 		}
 		out.Stats[fmt.Sprintf("pool/%d", c.Pool)]++
